@@ -1,6 +1,6 @@
 import SafeC.Props.C05Docs
 import SafeC.Proofs.CopyDisjoint
-import SafeC.Models.Time
+import SafeC.Models.Io
 /-!
 # C05 for asctime_s / ctime_s (`Models/Time.lean`)
 
@@ -258,5 +258,104 @@ example : ∃ st : St, RW st 100 26 ∧ SrcStr st 200 3 ∧ Disjoint 100 26 200 
   ⟨{ data := fun a => if 200 ≤ a ∧ a < 203 then 65 else 0, mapped := fun _ => true, rd := fun _ => true, wr := fun _ => true },
    fun i _ => ⟨rfl, rfl, rfl⟩,
    ⟨fun j hj => by simp; omega, by simp, fun j _ => ⟨rfl, rfl⟩⟩, Or.inl (by omega)⟩
+
+/-! ## gets_s -/
+
+theorem q_fgetsLoop (k inp l d acc : Nat) : Quiet (fgetsLoop k inp l d acc) := by
+  induction k generalizing inp l d acc with
+  | zero => unfold fgetsLoop; quiet
+  | succ k ih =>
+    cases l with
+    | zero => unfold fgetsLoop; quiet
+    | succ l => unfold fgetsLoop; quiet using ih _ _ _ _
+
+theorem q_strnlenP (n s acc : Nat) : Quiet (strnlenP n s acc) := by
+  induction n generalizing s acc with
+  | zero => unfold strnlenP; quiet
+  | succ n ih => unfold strnlenP; quiet using ih _ _
+
+/-- outcome of gets_s: nothing reported and `dest` returned (EOK) or NULL at end of file (-1), or exactly one report of a code
+of `[ESNULLP, ESZEROL, ESLEMAX, EOVERFLOW, ESNOSPC]` which is also what `errno` is set to -/
+def GPost : Nat → List Event → Prop := fun r es =>
+  (es = [] ∧ (r = EOK ∨ r = NEG1)) ∨ (r ≠ EOK ∧ r ∈ [ESNULLP, ESZEROL, ESLEMAX, EOVERFLOW, ESNOSPC] ∧ es = [.handler .str r])
+
+theorem gp_failS (c : Nat) (hc : c ≠ EOK) (hm : c ∈ [ESNULLP, ESZEROL, ESLEMAX, EOVERFLOW, ESNOSPC]) : EV (failS c) GPost :=
+  (EV.failS c).conseq (fun r es ⟨h1, h2⟩ => by subst h1; exact Or.inr ⟨hc, hm, h2⟩)
+
+theorem getsBody_ev (cfg : Cfg) (dest dmax inp len : Nat) : EV (getsBody cfg dest dmax inp len) GPost := by
+  unfold getsBody
+  refine Quiet.then_ (q_fgetsLoop _ _ _ _ _) (fun r => ?_)
+  obtain ⟨m, eof⟩ := r
+  dsimp only
+  have done_ : ∀ k, EV (do
+      (if cfg.slack = true ∧ k < dmax then memsetP 0 (dmax - k) (dest + k) else pure ())
+      pure EOK : Prog Nat) GPost := by
+    intro k
+    refine Quiet.then_ (by split <;> quiet) (fun _ => ?_)
+    exact EV.pure _ (Or.inl ⟨rfl, Or.inl rfl⟩)
+  split
+  · refine Quiet.then_ (Quiet.storeP _ _) (fun _ => ?_)
+    exact EV.pure _ (Or.inl ⟨rfl, Or.inr rfl⟩)
+  refine Quiet.then_ (Quiet.storeP _ _) (fun _ => ?_)
+  refine Quiet.then_ (q_strnlenP _ _ _) (fun n => ?_)
+  refine Quiet.then_ (by split <;> quiet) (fun last => ?_)
+  split
+  · exact Quiet.then_ (Quiet.storeP _ _) (fun _ => done_ _)
+  split
+  · split
+    · split
+      · exact EV.pure _ (Or.inl ⟨rfl, Or.inr rfl⟩)
+      · exact done_ _
+    · refine Quiet.then_ (Quiet.loadP _) (fun c => ?_)
+      split
+      · exact done_ _
+      · refine EV.bind (EV.handleError cfg dest dmax ESNOSPC) (fun _ es he => ?_)
+        subst he
+        refine EV.bind (Q := fun _ es => es = []) ?_ (fun _ es he => ?_)
+        · split
+          · exact (EV.memsetP 0 dmax dest).conseq (fun _ _ h => h.1)
+          · exact EV.pure _ rfl
+        · subst he
+          exact EV.pure _ (Or.inr ⟨ne_ESNOSPC, by decide, by simp⟩)
+  · exact done_ _
+
+/-- gets_s: all arguments, EVERY stream -/
+theorem gets_s_ev (cfg : Cfg) (dest dmax : Nat) (db : Bos) (inp len : Nat) : EV (gets_s cfg dest dmax db inp len) GPost := by
+  unfold gets_s
+  split
+  · exact gp_failS _ ne_ESNULLP (by decide)
+  split
+  · exact gp_failS _ ne_ESZEROL (by decide)
+  split
+  · split
+    · exact gp_failS _ ne_ESLEMAX (by decide)
+    · exact getsBody_ev ..
+  · split
+    · split
+      · exact gp_failS _ ne_ESLEMAX (by decide)
+      · exact gp_failS _ ne_EOVERFLOW (by decide)
+    · exact getsBody_ev ..
+
+/-- the C05 discipline of gets_s for runs: for all arguments and every stream, a returning call has reported nothing and returned
+dest (EOK) or NULL at end of file (-1), or has reported exactly once, the code it leaves in `errno` -/
+theorem gets_s_C05 (cfg : Cfg) (dest dmax : Nat) (db : Bos) (inp len : Nat) (st : St) (r : Nat) (st' : St)
+    (he : exec (gets_s cfg dest dmax db inp len) st = .ok (r, st')) :
+    (st'.events = st.events ∧ (r = EOK ∨ r = NEG1)) ∨
+    (r ≠ EOK ∧ r ∈ [ESNULLP, ESZEROL, ESLEMAX, EOVERFLOW, ESNOSPC] ∧ st'.events = st.events ++ [.handler .str r]) := by
+  obtain ⟨es, h1, h2⟩ := (gets_s_ev cfg dest dmax db inp len).sound st he
+  rcases h2 with ⟨rfl, hr⟩ | ⟨hr, hm, rfl⟩
+  · exact Or.inl ⟨by simpa using h1, hr⟩
+  · exact Or.inr ⟨hr, hm, h1⟩
+
+/-- gets_s: the code left in `errno` is on the current `@retval errno=` list of the doc comment (EOK / -1 stand for the two
+pointer results that set no code) -/
+theorem gets_s_documented (cfg : Cfg) (dest dmax : Nat) (db : Bos) (inp len : Nat) :
+    ReturnsDocumented "gets_s" [EOK, NEG1] (gets_s cfg dest dmax db inp len) id := by
+  intro st r st' he
+  have hsub : ∀ c ∈ [ESNULLP, ESZEROL, ESLEMAX, EOVERFLOW, ESNOSPC], c ∈ docCodes "gets_s" ++ [EOK, NEG1] := by decide
+  rcases gets_s_C05 cfg dest dmax db inp len st r st' he with ⟨_, rfl | rfl⟩ | ⟨_, hm, _⟩
+  · simp
+  · simp
+  · exact hsub _ hm
 
 end SafeC.Props.C05Time
